@@ -253,7 +253,7 @@ func (s *Segment) DocsMatchingTerms(terms []segment.Term) (*roaring.Bitmap, erro
 		var dict *Dictionary
 		for i, term := range terms {
 			thisField := term.Field()
-			if thisField != lastField {
+			if i == 0 || thisField != lastField {
 				dict, err = s.dictionary(term.Field())
 				if err != nil {
 					return nil, err
